@@ -157,6 +157,34 @@ Proof.
       apply andb_true_iff in E2. destruct E2 as [E2 _]. apply andb_true_iff; split; assumption.
 Qed.
 
+(* a process that has returned stays where it is *)
+Lemma halted_b_stable : forall sch x, bact (x_b x) = AHalt -> x_b (runs sch x) = x_b x.
+Proof.
+  unfold run_sched. induction sch as [|who t IH]; intros x H; [reflexivity|].
+  cbn [fold_left].
+  assert (Hy : x_b (sched_step BT ST bact sact bthr sthr x who) = x_b x).
+  { unfold sched_step. destruct (stepof who x) as [y|] eqn:E; [|reflexivity].
+    destruct who; cbn in E; unfold step_b, step_s in E.
+    - rewrite H in E. discriminate.
+    - destruct (sact (x_s x)); try discriminate.
+      + inversion E; reflexivity.
+      + destruct (x_c2s x); [discriminate|]. inversion E; reflexivity. }
+  rewrite IH; [exact Hy|rewrite Hy; exact H].
+Qed.
+Lemma halted_s_stable : forall sch x, sact (x_s x) = AHalt -> x_s (runs sch x) = x_s x.
+Proof.
+  unfold run_sched. induction sch as [|who t IH]; intros x H; [reflexivity|].
+  cbn [fold_left].
+  assert (Hy : x_s (sched_step BT ST bact sact bthr sthr x who) = x_s x).
+  { unfold sched_step. destruct (stepof who x) as [y|] eqn:E; [|reflexivity].
+    destruct who; cbn in E; unfold step_b, step_s in E.
+    - destruct (bact (x_b x)); try discriminate.
+      + inversion E; reflexivity.
+      + destruct (x_s2c x); [discriminate|]. inversion E; reflexivity.
+    - rewrite H in E. discriminate. }
+  rewrite IH; [exact Hy|rewrite Hy; exact H].
+Qed.
+
 (* everything at once, for an arbitrary schedule *)
 Theorem all_interleavings f n x : exact f n x -> forall sch,
   effective sch x <= n /\
@@ -164,13 +192,20 @@ Theorem all_interleavings f n x : exact f n x -> forall sch,
    seen_ok (x_bseen (runs sch x)) && seen_ok (x_sseen (runs sch x)) = true) /\
   (stepb (runs sch x) = None -> steps (runs sch x) = None -> runs sch x = f) /\
   (exists sch', runs (sch ++ sch') x = f) /\
-  (effective sch x = n -> runs sch x = f).
+  (effective sch x = n -> runs sch x = f) /\
+  (bact (x_b (runs sch x)) = AHalt -> x_b (runs sch x) = x_b f) /\
+  (sact (x_s (runs sch x)) = AHalt -> x_s (runs sch x) = x_s f).
 Proof.
-  intros H sch. destruct (exact_sched f sch n x H) as [A B]. split; [exact A|]. split; [|split; [|split]].
+  intros H sch. destruct (exact_sched f sch n x H) as [A B]. split; [exact A|].
+  split; [|split; [|split; [|split; [|split]]]].
   - intros Hf. apply (exact_backward f _ seen_backward Hf _ _ B).
   - intros Tb Ts. apply (exact_terminal _ _ _ B Tb Ts).
   - destruct (exact_complete _ _ _ B) as [sch' [C _]]. exists sch'.
     unfold run_sched. rewrite fold_left_app. exact C.
   - intros E. rewrite E, Nat.sub_diag in B. destruct (exact0_terminal _ _ B) as [-> _]. reflexivity.
+  - intros Hh. destruct (exact_complete _ _ _ B) as [sch' [C _]]. rewrite <- C.
+    symmetry. apply halted_b_stable. exact Hh.
+  - intros Hh. destruct (exact_complete _ _ _ B) as [sch' [C _]]. rewrite <- C.
+    symmetry. apply halted_s_stable. exact Hh.
 Qed.
 End NetProofs.
